@@ -1,11 +1,115 @@
-import TinysetModel.Proofs.Consts
-/-! C07 — see /verif/properties.jsonl.  Theorems for this property are being added; the ones
-below are the obligations checked so far. -/
-namespace C07
-open SC
+import TinysetModel.Proofs.PropsAux
+import TinysetModel.Proofs.InlineSpec
+import TinysetModel.Proofs.Demo
+/-! C07 — clone() is a deep, independent copy (sets and consuming iterators).
 
-/-- the model's constants are the ones in the current source -/
-theorem consts_match : TinyC.codec64.splits = Gen.bitsplits64 ∧ TinyC.codec32.splits = Gen.bitsplits32 :=
-  ⟨bitsplits64_match, bitsplits32_match⟩
+In the Rust code `Clone` copies the inline word, or copies header + bucket array byte for byte into a fresh
+block.  In the functional model a set is a VALUE (`Rp`); a byte-for-byte copy of a value is the same value:
+`clone r = r` (`Model/Ops.lean`).  Independence — "no mutation, drain or drop of one ever changes the other" —
+is then a property of values, not a theorem: an operation on the clone RETURNS a new value and cannot alter `r`.
+What the model can and does say is (a) the clone has the same members and is well formed, (b) the clone
+subjected to any history answers exactly like an ideal set that starts with the members of the original,
+(c) a cloned cursor yields the same remaining items, (d) `with_capacity_of`.
+The precondition under which the real `Clone` (which decides "inline or pointer?" from the low bits of the
+word) matches `clone r = r` is tag coherence: `tag_coherent_u64/u32` below (= C06) — the mask used by `clone`
+and `with_capacity_of` is among `Gen.tagMasks64/32`.  That the copy is deep at the byte level (fresh block, no
+aliasing, independent drops) is checked by the harness under the instrumented allocator. -/
+namespace C07
+open SC TinyC
+
+section generic
+variable {c : Cfg} {D : Type}
+
+/-- `clone` returns the same value … -/
+theorem clone_eq (r : Rp) : clone r = r := rfl
+
+/-- … hence an equal set: same members in the same iteration order, same `len`, same `capacity`, well formed, `==` -/
+theorem clone_same (ok : CfgOK c) (g : Rng D) (fuel : Nat) {r : Rp} (wf : WF c r) :
+    WF c (clone r) ∧ elems c (clone r) = elems c r ∧ len (clone r) = len r ∧ capacity (clone r) = capacity r ∧
+      eqSet c (clone r) r = true ∧ eqSet c r (clone r) = true :=
+  ⟨wf, rfl, rfl, rfl, eqSet_refl (coreOK ok g fuel) wf, eqSet_refl (coreOK ok g fuel) wf⟩
+
+/-- the clone lives its own life: under ANY history (any RNG oracle, any fuel) it answers like the ideal set
+that starts with the members the original had at the time of the clone.  The original `r` is a value and is
+not an output of the run: it is what it was. -/
+theorem clone_history (ok : CfgOK c) (g : Rng D) (fuel : Nat) (ops : List Op) (hops : ∀ op ∈ ops, op.InRange c.W)
+    {r : Rp} (wf : WF c r) {d d' : D} {r' : Rp} {outs : List Out}
+    (h : runOps c g fuel (clone r) ops d = .ok ((r', outs), d')) :
+    WF c r' ∧ outs = (specRun (elems c r) ops).2 ∧ (∀ x, x ∈ elems c r' ↔ x ∈ (specRun (elems c r) ops).1) :=
+  run_refines_self ok g fuel ops hops wf h
+
+/-- and the original, used after its clone was mutated in any way, still answers from its own members -/
+theorem original_after_clone_mutated (ok : CfgOK c) {r : Rp} (wf : WF c r) (e : Nat) (he : e < 2 ^ c.W) :
+    contains c r e = true ↔ e ∈ elems c r := contains_refines ok wf e he
+
+/-- a cloned consuming iterator (the clone of the set + the same cursor) resumes at the same position `j` and
+yields the same remaining items as the original iterator -/
+theorem cloned_iterator (ok : CfgOK c) {r : Rp} (wf : WF c r) (j : Nat) :
+    ∃ ck, advance c r j (cursorOf r) = .ok ck ∧
+      drainFrom c (clone r) ((elems c r).length + 1) ck = .ok ((elems c r).drop j) ∧
+      drainFrom c r ((elems c r).length + 1) ck = .ok ((elems c r).drop j) :=
+  cloned_iter_resumes ok wf j
+
+/-- `with_capacity_of(&s)`: a well-formed empty set with the same `capacity()`; `s` is only read -/
+theorem with_capacity_of (ok : CfgOK c) {r : Rp} (wf : WF c r) :
+    WF c (withCapOf r) ∧ elems c (withCapOf r) = [] ∧ capacity (withCapOf r) = capacity r := withCapOf_ok ok wf
+
+end generic
+
+/-! ### instances -/
+
+theorem clone_history_u64 {D : Type} (g : Rng D) (fuel : Nat) (ops : List Op) (hops : ∀ op ∈ ops, op.InRange 64)
+    {r : Rp} (wf : WF cfg64 r) {d d' : D} {r' : Rp} {outs : List Out}
+    (h : runOps cfg64 g fuel (clone r) ops d = .ok ((r', outs), d')) :
+    WF cfg64 r' ∧ outs = (specRun (elems cfg64 r) ops).2 ∧ (∀ x, x ∈ elems cfg64 r' ↔ x ∈ (specRun (elems cfg64 r) ops).1) :=
+  run_refines_self cfg64_ok g fuel ops hops wf h
+theorem clone_history_u32 {D : Type} (g : Rng D) (fuel : Nat) (ops : List Op) (hops : ∀ op ∈ ops, op.InRange 32)
+    {r : Rp} (wf : WF cfg32 r) {d d' : D} {r' : Rp} {outs : List Out}
+    (h : runOps cfg32 g fuel (clone r) ops d = .ok ((r', outs), d')) :
+    WF cfg32 r' ∧ outs = (specRun (elems cfg32 r) ops).2 ∧ (∀ x, x ∈ elems cfg32 r' ↔ x ∈ (specRun (elems cfg32 r) ops).1) :=
+  run_refines_self cfg32_ok g fuel ops hops wf h
+
+theorem cloned_iterator_u64 {r : Rp} (wf : WF cfg64 r) (j : Nat) :
+    ∃ ck, advance cfg64 r j (cursorOf r) = .ok ck ∧
+      drainFrom cfg64 (clone r) ((elems cfg64 r).length + 1) ck = .ok ((elems cfg64 r).drop j) ∧
+      drainFrom cfg64 r ((elems cfg64 r).length + 1) ck = .ok ((elems cfg64 r).drop j) :=
+  cloned_iter_resumes cfg64_ok wf j
+theorem cloned_iterator_u32 {r : Rp} (wf : WF cfg32 r) (j : Nat) :
+    ∃ ck, advance cfg32 r j (cursorOf r) = .ok ck ∧
+      drainFrom cfg32 (clone r) ((elems cfg32 r).length + 1) ck = .ok ((elems cfg32 r).drop j) ∧
+      drainFrom cfg32 r ((elems cfg32 r).length + 1) ck = .ok ((elems cfg32 r).drop j) :=
+  cloned_iter_resumes cfg32_ok wf j
+
+theorem with_capacity_of_u64 {r : Rp} (wf : WF cfg64 r) :
+    WF cfg64 (withCapOf r) ∧ elems cfg64 (withCapOf r) = [] ∧ capacity (withCapOf r) = capacity r := withCapOf_ok cfg64_ok wf
+theorem with_capacity_of_u32 {r : Rp} (wf : WF cfg32 r) :
+    WF cfg32 (withCapOf r) ∧ elems cfg32 (withCapOf r) = [] ∧ capacity (withCapOf r) = capacity r := withCapOf_ok cfg32_ok wf
+
+/-! ### the precondition that makes the real `Clone` match the model: tag coherence (see C06) -/
+
+/-- `clone` and `with_capacity_of` are among the functions whose inline-vs-pointer test was read from the source -/
+theorem clone_sites_listed : ("clone", 7) ∈ Gen.tagMasks64 ∧ ("with_capacity_of", 7) ∈ Gen.tagMasks64 ∧
+    ("clone", 3) ∈ Gen.tagMasks32 ∧ ("with_capacity_of", 3) ∈ Gen.tagMasks32 := by decide
+/-- for each of them an inline word is never taken for a pointer and an aligned address never for an inline word -/
+theorem tag_coherent_u64 (t : T) (h : 1 ≤ t.sz ∧ t.sz ≤ 7) : ∀ p ∈ Gen.tagMasks64,
+    toWord codec64 t % (p.2 + 1) ≠ 0 ∧ ∀ k, (k * Gen.layout64.2.2) % (p.2 + 1) = 0 := tag_coherent64_src t h
+theorem tag_coherent_u32 (t : T) (h : 1 ≤ t.sz ∧ t.sz ≤ 6) : ∀ p ∈ Gen.tagMasks32,
+    toWord codec32 t % (p.2 + 1) ≠ 0 ∧ ∀ k, (k * Gen.layout32.2.2) % (p.2 + 1) = 0 := tag_coherent32_src t h
+
+/-! ### the hypotheses are satisfiable -/
+
+/-- a history on the clone of a reachable heap set returns; `clone_history_u64` gives its answers -/
+theorem demo_clone_run : runOps cfg64 detRng 6 (clone Demo.bitmap64) [.ins 7, .rem 1000, .con 7, .len] () =
+    .ok ((.heap 2 3 23 #[401016175510691840, 128, 0], [.bool true, .bool true, .bool true, .nat 2]), ()) := by decide +kernel
+example : [.bool true, .bool true, .bool true, .nat 2] = (specRun (elems cfg64 Demo.bitmap64) [.ins 7, .rem 1000, .con 7, .len]).2 :=
+  (clone_history_u64 detRng 6 _ (by decide) Demo.bitmap64_wf demo_clone_run).2.1
+/-- the original still has the member that was removed from the clone -/
+example : contains cfg64 Demo.bitmap64 1000 = true := by decide +kernel
+example : WF cfg32 (withCapOf Demo.plain32) := (with_capacity_of_u32 Demo.plain32_wf).1
 
 end C07
+
+#print axioms C07.clone_same
+#print axioms C07.clone_history
+#print axioms C07.cloned_iterator
+#print axioms C07.with_capacity_of
